@@ -1,454 +1,283 @@
-(* C16/Proofs.v — lemmas about the DER reader/writer and the SignedData model. *)
-From Relic Require Import Base.Prelude Base.Enc Generated.C16_gen C16.Model.
+(* C16/Proofs.v — the SignedData model: what parsing establishes, re-parsing of what is emitted, regions, attribute digest
+   preimage, builder attributes, timestamp embedding, agreement with the RFC 5652 walker. *)
+From Relic Require Import Base.Prelude Base.Enc Generated.C16_gen C16.Model C16.Tlv.
 
 Local Open Scope Z_scope.
 
-(* ------------------------------------------------------------------ small helpers *)
-Lemma all_bytes_cons b l : all_bytes (b :: l) = true <-> (0 <= b < 256) /\ all_bytes l = true.
+(* ------------------------------------------------------------------ the values srcgen read from lib/pkcs7 (re-checked on every build) *)
+Lemma layout_ok_true : layout_ok = true. Proof. vm_compute. reflexivity. Qed.
+Lemma OCT_dalgs_v : OCT_dalgs = 49. Proof. reflexivity. Qed.
+Lemma OCT_certs_v : OCT_certs = 160. Proof. reflexivity. Qed.
+Lemma OCT_crls_v : OCT_crls = 161. Proof. reflexivity. Qed.
+Lemma OCT_sis_v : OCT_sis = 49. Proof. reflexivity. Qed.
+Lemma OCT_auth_v : OCT_auth = 160. Proof. reflexivity. Qed.
+Lemma OCT_unauth_v : OCT_unauth = 161. Proof. reflexivity. Qed.
+Lemma OCT_explicit_v : OCT_explicit = 160. Proof. reflexivity. Qed.
+Lemma OCT_explicit_prim_v : OCT_explicit_prim = 128. Proof. reflexivity. Qed.
+Lemma certs_opt_v : SD_Certificates_opt = true. Proof. reflexivity. Qed.
+Lemma crls_opt_v : SD_CRLs_opt = true. Proof. reflexivity. Qed.
+Lemma certs_set_v : certs_set = false. Proof. reflexivity. Qed.
+Lemma dalgs_set_v : SD_DigestAlgorithmIdentifiers_set = true. Proof. reflexivity. Qed.
+Lemma sis_set_v : SD_SignerInfos_set = true. Proof. reflexivity. Qed.
+Lemma auth_opt_v : SI_AuthenticatedAttributes_opt = true. Proof. reflexivity. Qed.
+Lemma unauth_opt_v : SI_UnauthenticatedAttributes_opt = true. Proof. reflexivity. Qed.
+Lemma auth_set_v : SI_AuthenticatedAttributes_set || attrs_set = false. Proof. reflexivity. Qed.
+Lemma unauth_set_v : SI_UnauthenticatedAttributes_set || attrs_set = false. Proof. reflexivity. Qed.
+Lemma attrs_set_v : attrs_set = false. Proof. reflexivity. Qed.
+Lemma si_keeps_raw_v : si_keeps_raw = true. Proof. reflexivity. Qed.
+Lemma ci_keeps_raw_v : ci_keeps_raw = true. Proof. reflexivity. Qed.
+
+Lemma tag_ok_const t : (0 <=? t) && (t <? 256) && negb (t mod 32 =? 31) = true -> tag_ok t.
+Proof. intros H. unfold tag_ok. lia. Qed.
+Ltac tagok := apply tag_ok_const; reflexivity.
+
+(* ------------------------------------------------------------------ plumbing *)
+Lemma bind_ok {A B} (r : result A) (k : A -> result B) v :
+  (x <- r ;; k x) = Ok v -> exists x, r = Ok x /\ k x = Ok v.
+Proof. destruct r; cbn; intros H; try discriminate. eauto. Qed.
+
+Ltac inv_bind H :=
+  let x := fresh "x" in let E := fresh "E" in
+  apply bind_ok in H; destruct H as (x & E & H).
+
+Lemma read_expect_inv oct l t rest : read_expect oct l = Ok (t, rest) -> read_tlv l = Ok (t, rest) /\ t_tag t = oct.
 Proof.
-  unfold all_bytes. cbn [forallb]. rewrite andb_true_iff. unfold is_byte. split; intros [H1 H2]; split; auto; lia.
+  unfold read_expect. intros H. inv_bind H. destruct x as [t' r']. cbn [fst] in H.
+  destruct (t_tag t' =? oct) eqn:Et; [|discriminate]. inversion H; subst. split; [exact E|lia].
 Qed.
-Lemma all_bytes_app_iff a b : all_bytes (a ++ b) = true <-> all_bytes a = true /\ all_bytes b = true.
-Proof. rewrite all_bytes_app, andb_true_iff. tauto. Qed.
-Lemma all_bytes_nil : all_bytes [] = true.
+Lemma read_expect_valid oct t rest : valid t -> t_tag t = oct -> read_expect oct (t_full t ++ rest) = Ok (t, rest).
+Proof.
+  intros Hv Ht. unfold read_expect. rewrite read_tlv_valid by exact Hv. cbn [bind fst]. rewrite Ht, Z.eqb_refl. reflexivity.
+Qed.
+Lemma read_expect_enc oct body rest : tag_ok oct -> small body ->
+  read_expect oct (enc_tlv oct body ++ rest) = Ok (mkTlv oct body (enc_tlv oct body), rest).
+Proof.
+  intros Ht Hs. unfold read_expect. rewrite read_tlv_enc by assumption. cbn [bind fst t_tag]. rewrite Z.eqb_refl. reflexivity.
+Qed.
+
+(* what one read establishes *)
+Lemma read_expect_ok oct l t rest : all_bytes l = true -> read_expect oct l = Ok (t, rest) ->
+  l = t_full t ++ rest /\ valid t /\ t_tag t = oct /\ all_bytes rest = true.
+Proof.
+  intros Hb H. apply read_expect_inv in H as [H Ht]. apply read_tlv_ok in H as (Hl & Hv & Hr); [|exact Hb]. tauto.
+Qed.
+
+Lemma valid_body_bytes t : valid t -> all_bytes (t_body t) = true.
+Proof. intros (_ & _ & _ & H). exact H. Qed.
+Lemma valid_small t : valid t -> small (t_body t).
+Proof. intros (_ & _ & H & _). exact H. Qed.
+
+(* optional fields *)
+Lemma read_optional_present opt oct t rest : valid t -> t_tag t = oct ->
+  read_optional opt oct (t_full t ++ rest) = Ok (Some t, rest).
+Proof.
+  intros Hv Ht. unfold read_optional.
+  destruct (valid_nonempty t Hv) as (b & r & Hbr).
+  rewrite Hbr at 1. cbn [app]. rewrite read_hdr_valid by exact Hv. cbn [bind]. rewrite Ht, Z.eqb_refl.
+  rewrite read_tlv_valid by exact Hv. reflexivity.
+Qed.
+Lemma read_optional_absent_nil oct : read_optional true oct [] = Ok (None, []).
 Proof. reflexivity. Qed.
-Lemma all_bytes_ztake n l : all_bytes l = true -> all_bytes (ztake n l) = true.
+Lemma read_optional_absent oct t rest : valid t -> t_tag t <> oct ->
+  read_optional true oct (t_full t ++ rest) = Ok (None, t_full t ++ rest).
 Proof.
-  intros H. rewrite <- (ztake_zdrop n l) in H. apply all_bytes_app_iff in H. tauto.
+  intros Hv Ht. unfold read_optional.
+  destruct (valid_nonempty t Hv) as (b & r & Hbr).
+  rewrite Hbr at 1. cbn [app]. rewrite read_hdr_valid by exact Hv. cbn [bind].
+  replace (t_tag t =? oct) with false by lia. reflexivity.
 Qed.
-Lemma all_bytes_zdrop n l : all_bytes l = true -> all_bytes (zdrop n l) = true.
-Proof.
-  intros H. rewrite <- (ztake_zdrop n l) in H. apply all_bytes_app_iff in H. tauto.
-Qed.
-Lemma all_bytes_concat ls : Forall (fun l => all_bytes l = true) ls -> all_bytes (concat ls) = true.
-Proof.
-  induction 1; cbn [concat]; [reflexivity|]. apply all_bytes_app_iff. tauto.
-Qed.
-
-Definition tag_ok (t : Z) : Prop := 0 <= t < 256 /\ t mod 32 <> 31.
-Definition small (l : bytes) : Prop := zlen l < 2 ^ 31.
-
-Lemma small_app a b : small (a ++ b) -> small a /\ small b.
-Proof. unfold small. rewrite zlen_app. pose proof (zlen_nonneg a). pose proof (zlen_nonneg b). lia. Qed.
-
-(* ------------------------------------------------------------------ the header *)
-Lemma enc_len_bytes n : 0 <= n < 2 ^ 32 -> all_bytes (enc_len n) = true.
-Proof.
-  intros H. unfold enc_len.
-  repeat match goal with |- context [if ?c then _ else _] => destruct c eqn:? end;
-    repeat (apply all_bytes_cons; split; [lia|]); reflexivity.
-Qed.
-Lemma enc_len_pos n : 1 <= zlen (enc_len n).
-Proof.
-  unfold enc_len. repeat match goal with |- context [if ?c then _ else _] => destruct c end; cbn; lia.
-Qed.
-Lemma zlen_enc_tlv t b : zlen (enc_tlv t b) = 1 + zlen (enc_len (zlen b)) + zlen b.
-Proof. unfold enc_tlv. rewrite zlen_cons, zlen_app. lia. Qed.
-Lemma small_enc_tlv t b : small (enc_tlv t b) -> small b.
-Proof. unfold small. rewrite zlen_enc_tlv. pose proof (enc_len_pos (zlen b)). lia. Qed.
-
-Ltac ifs H :=
-  repeat match type of H with
-         | context [if ?c then _ else _] => let E := fresh "E" in destruct c eqn:E; try discriminate H
-         end.
-
-Ltac fin_hdr := cbv iota; match goal with |- Ok (_, ?b, _) = Ok (_, ?n, _) => replace b with n by lia; reflexivity end.
-(* reading a header written by enc_len *)
-Lemma read_hdr_enc tag n r :
-  tag_ok tag -> 0 <= n < 2 ^ 31 -> read_hdr (tag :: enc_len n ++ r) = Ok (tag, n, r).
-Proof.
-  intros [Ht Hm] Hn. unfold read_hdr.
-  replace (tag mod 32 =? 31) with false by (symmetry; apply Z.eqb_neq; exact Hm).
-  unfold enc_len.
-  destruct (n <? 128) eqn:E1.
-  { cbn [app]. rewrite E1. reflexivity. }
-  destruct (n <? 256) eqn:E2.
-  { cbn [app]. change (129 <? 128) with false. change (129 =? 128) with false. cbv iota.
-    change (Z.to_nat (129 - 128)) with 1%nat. cbn [read_len bind].
-    change (0 >=? 2 ^ 23) with false. cbv iota.
-    replace (0 * 256 + n =? 0) with false by lia. cbn [bind fst snd].
-    replace (0 * 256 + n <? 128) with false by lia. fin_hdr. }
-  destruct (n <? 65536) eqn:E3.
-  { cbn [app]. change (130 <? 128) with false. change (130 =? 128) with false. cbv iota.
-    change (Z.to_nat (130 - 128)) with 2%nat. cbn [read_len bind].
-    change (0 >=? 2 ^ 23) with false. cbv iota.
-    replace (0 * 256 + n / 256 =? 0) with false by lia.
-    replace (0 * 256 + n / 256 >=? 2 ^ 23) with false by lia.
-    replace ((0 * 256 + n / 256) * 256 + n mod 256 =? 0) with false by lia. cbn [bind fst snd].
-    replace ((0 * 256 + n / 256) * 256 + n mod 256 <? 128) with false by lia. fin_hdr. }
-  destruct (n <? 16777216) eqn:E4.
-  { cbn [app]. change (131 <? 128) with false. change (131 =? 128) with false. cbv iota.
-    change (Z.to_nat (131 - 128)) with 3%nat. cbn [read_len bind].
-    change (0 >=? 2 ^ 23) with false. cbv iota.
-    replace (0 * 256 + n / 65536 =? 0) with false by lia.
-    replace (0 * 256 + n / 65536 >=? 2 ^ 23) with false by lia.
-    replace ((0 * 256 + n / 65536) * 256 + n / 256 mod 256 =? 0) with false by lia.
-    replace ((0 * 256 + n / 65536) * 256 + n / 256 mod 256 >=? 2 ^ 23) with false by lia.
-    replace (((0 * 256 + n / 65536) * 256 + n / 256 mod 256) * 256 + n mod 256 =? 0) with false by lia. cbn [bind fst snd].
-    replace (((0 * 256 + n / 65536) * 256 + n / 256 mod 256) * 256 + n mod 256 <? 128) with false by lia.
-    fin_hdr. }
-  cbn [app]. change (132 <? 128) with false. change (132 =? 128) with false. cbv iota.
-  change (Z.to_nat (132 - 128)) with 4%nat. cbn [read_len bind].
-  change (0 >=? 2 ^ 23) with false. cbv iota.
-  replace (0 * 256 + n / 16777216 =? 0) with false by lia.
-  replace (0 * 256 + n / 16777216 >=? 2 ^ 23) with false by lia.
-  replace ((0 * 256 + n / 16777216) * 256 + n / 65536 mod 256 =? 0) with false by lia.
-  replace ((0 * 256 + n / 16777216) * 256 + n / 65536 mod 256 >=? 2 ^ 23) with false by lia.
-  replace (((0 * 256 + n / 16777216) * 256 + n / 65536 mod 256) * 256 + n / 256 mod 256 =? 0) with false by lia.
-  replace (((0 * 256 + n / 16777216) * 256 + n / 65536 mod 256) * 256 + n / 256 mod 256 >=? 2 ^ 23) with false by lia.
-  replace ((((0 * 256 + n / 16777216) * 256 + n / 65536 mod 256) * 256 + n / 256 mod 256) * 256 + n mod 256 =? 0) with false by lia.
-  cbn [bind fst snd].
-  replace ((((0 * 256 + n / 16777216) * 256 + n / 65536 mod 256) * 256 + n / 256 mod 256) * 256 + n mod 256 <? 128) with false by lia.
-  fin_hdr.
-Qed.
-
-(* the header that was read is the canonical one (DER): this is where Go's minimal-length checks pay off *)
-Lemma read_hdr_canon l tag len r :
-  all_bytes l = true -> read_hdr l = Ok (tag, len, r) ->
-  l = tag :: enc_len len ++ r /\ 0 <= len < 2 ^ 31 /\ tag_ok tag.
-Proof.
-  intros Hb H. unfold read_hdr in H.
-  destruct l as [|b l]; [discriminate|].
-  apply all_bytes_cons in Hb as [Hb0 Hb].
-  destruct (b mod 32 =? 31) eqn:Em; [discriminate|].
-  destruct l as [|lb r2]; [discriminate|].
-  apply all_bytes_cons in Hb as [Hlb Hb].
-  assert (Htag : tag_ok b) by (split; [lia|apply Z.eqb_neq; exact Em]).
-  destruct (lb <? 128) eqn:E1.
-  { inversion H; subst. unfold enc_len. rewrite E1. cbn [app]. repeat split; try lia; apply Htag. }
-  destruct (lb =? 128) eqn:E2; [discriminate|].
-  remember (Z.to_nat (lb - 128)) as k eqn:Hk.
-  destruct k as [|[|[|[|[|k]]]]].
-  - lia.
-  - (* one length octet *)
-    destruct r2 as [|b1 r3]; [discriminate|]. apply all_bytes_cons in Hb as [H1 Hb].
-    cbn [read_len bind] in H. change (0 >=? 2 ^ 23) with false in H. cbv iota in H.
-    ifs H. cbn [bind fst snd] in H. ifs H. inversion H; subst.
-    assert (lb = 129) by lia. subst lb. unfold enc_len.
-    replace (len <? 128) with false by lia. replace (len <? 256) with true by lia.
-    cbn [app]. repeat split; try lia; apply Htag.
-  - destruct r2 as [|b1 [|b2 r3]]; try discriminate.
-    { cbn [read_len bind] in H. change (0 >=? 2 ^ 23) with false in H. cbv iota in H. ifs H. }
-    apply all_bytes_cons in Hb as [H1 Hb]. apply all_bytes_cons in Hb as [H2 Hb].
-    cbn [read_len bind] in H. change (0 >=? 2 ^ 23) with false in H. cbv iota in H.
-    ifs H. cbn [bind fst snd] in H. ifs H.
-    set (n := (0 * 256 + b1) * 256 + b2) in *.
-    assert (Hn : n = b1 * 256 + b2) by (subst n; lia). clearbody n.
-    injection H as Et En Er. subst len tag r.
-    assert (lb = 130) by lia. subst lb. unfold enc_len.
-    replace (n <? 128) with false by lia. replace (n <? 256) with false by lia. replace (n <? 65536) with true by lia.
-    cbn [app]. replace (n / 256) with b1 by lia. replace (n mod 256) with b2 by lia.
-    repeat split; try lia; apply Htag.
-  - destruct r2 as [|b1 [|b2 [|b3 r3]]]; try discriminate;
-      try (cbn [read_len bind] in H; change (0 >=? 2 ^ 23) with false in H; cbv iota in H; ifs H; fail).
-    apply all_bytes_cons in Hb as [H1 Hb]. apply all_bytes_cons in Hb as [H2 Hb]. apply all_bytes_cons in Hb as [H3 Hb].
-    cbn [read_len bind] in H. change (0 >=? 2 ^ 23) with false in H. cbv iota in H.
-    ifs H. cbn [bind fst snd] in H. ifs H.
-    set (n := ((0 * 256 + b1) * 256 + b2) * 256 + b3) in *.
-    assert (Hn : n = b1 * 65536 + b2 * 256 + b3) by (subst n; lia). clearbody n.
-    injection H as Et En Er. subst len tag r.
-    assert (lb = 131) by lia. subst lb. unfold enc_len.
-    replace (n <? 128) with false by lia. replace (n <? 256) with false by lia.
-    replace (n <? 65536) with false by lia. replace (n <? 16777216) with true by lia.
-    cbn [app].
-    replace (n / 65536) with b1 by lia. replace (n / 256 mod 256) with b2 by lia. replace (n mod 256) with b3 by lia.
-    repeat split; try lia; apply Htag.
-  - destruct r2 as [|b1 [|b2 [|b3 [|b4 r3]]]]; try discriminate;
-      try (cbn [read_len bind] in H; change (0 >=? 2 ^ 23) with false in H; cbv iota in H; ifs H; fail).
-    apply all_bytes_cons in Hb as [H1 Hb]. apply all_bytes_cons in Hb as [H2 Hb].
-    apply all_bytes_cons in Hb as [H3 Hb]. apply all_bytes_cons in Hb as [H4 Hb].
-    cbn [read_len bind] in H. change (0 >=? 2 ^ 23) with false in H. cbv iota in H.
-    ifs H. cbn [bind fst snd] in H. ifs H.
-    set (n := (((0 * 256 + b1) * 256 + b2) * 256 + b3) * 256 + b4) in *.
-    assert (Hn : n = b1 * 16777216 + b2 * 65536 + b3 * 256 + b4) by (subst n; lia).
-    assert (b1 < 128) by lia. clearbody n.
-    injection H as Et En Er. subst len tag r.
-    assert (lb = 132) by lia. subst lb. unfold enc_len.
-    replace (n <? 128) with false by lia. replace (n <? 256) with false by lia.
-    replace (n <? 65536) with false by lia. replace (n <? 16777216) with false by lia.
-    cbn [app].
-    replace (n / 16777216) with b1 by lia. replace (n / 65536 mod 256) with b2 by lia.
-    replace (n / 256 mod 256) with b3 by lia. replace (n mod 256) with b4 by lia.
-    repeat split; try lia; apply Htag.
-  - (* five or more length octets: Go reports "length too large" (or runs out of input) *)
-    exfalso.
-    destruct r2 as [|b1 [|b2 [|b3 [|b4 r3]]]]; try discriminate;
-      try (cbn [read_len bind] in H; change (0 >=? 2 ^ 23) with false in H; cbv iota in H; ifs H; discriminate H).
-    apply all_bytes_cons in Hb as [H1 Hb]. apply all_bytes_cons in Hb as [H2 Hb].
-    apply all_bytes_cons in Hb as [H3 Hb]. apply all_bytes_cons in Hb as [H4 Hb].
-    cbn [read_len bind] in H. change (0 >=? 2 ^ 23) with false in H. cbv iota in H.
-    destruct (0 * 256 + b1 =? 0) eqn:Z1; [discriminate|].
-    destruct (0 * 256 + b1 >=? 2 ^ 23) eqn:Z2; [discriminate|].
-    destruct ((0 * 256 + b1) * 256 + b2 =? 0) eqn:Z3; [discriminate|].
-    destruct ((0 * 256 + b1) * 256 + b2 >=? 2 ^ 23) eqn:Z4; [discriminate|].
-    destruct (((0 * 256 + b1) * 256 + b2) * 256 + b3 =? 0) eqn:Z5; [discriminate|].
-    destruct (((0 * 256 + b1) * 256 + b2) * 256 + b3 >=? 2 ^ 23) eqn:Z6; [discriminate|].
-    destruct ((((0 * 256 + b1) * 256 + b2) * 256 + b3) * 256 + b4 =? 0) eqn:Z7; [discriminate|].
-    destruct r3 as [|b5 r4]; [discriminate|].
-    replace ((((0 * 256 + b1) * 256 + b2) * 256 + b3) * 256 + b4 >=? 2 ^ 23) with true in H by lia.
-    discriminate.
-Qed.
-
-(* ------------------------------------------------------------------ elements *)
-(* a well-formed element: canonical header, single-octet identifier, length below 2^31 *)
-Definition valid (t : tlv) : Prop :=
-  t_full t = enc_tlv (t_tag t) (t_body t) /\ tag_ok (t_tag t) /\ small (t_body t) /\ all_bytes (t_body t) = true.
-
-Lemma valid_full_bytes t : valid t -> all_bytes (t_full t) = true.
-Proof.
-  intros (Hf & Ht & Hs & Hb). rewrite Hf. unfold enc_tlv. apply all_bytes_cons. split; [apply Ht|].
-  apply all_bytes_app_iff. split; [|exact Hb]. apply enc_len_bytes. unfold small in Hs. pose proof (zlen_nonneg (t_body t)). lia.
-Qed.
-
-Lemma read_tlv_ok l t rest :
-  all_bytes l = true -> read_tlv l = Ok (t, rest) ->
-  l = t_full t ++ rest /\ valid t /\ all_bytes rest = true.
-Proof.
-  intros Hb H. unfold read_tlv in H.
-  destruct (read_hdr l) as [[[tag len] r]| |] eqn:Eh; cbn [bind] in H; try discriminate.
-  apply read_hdr_canon in Eh as (Hl & Hlen & Htag); [|exact Hb].
-  destruct (zlen r <? len) eqn:El; [discriminate|].
-  inversion H; subst t rest; clear H. cbn [t_full t_body t_tag].
-  assert (Hr : all_bytes r = true).
-  { rewrite Hl in Hb. apply all_bytes_cons in Hb as [_ Hb]. apply all_bytes_app_iff in Hb. tauto. }
-  assert (Hfull : ztake (zlen l - zlen r + len) l = tag :: enc_len len ++ ztake len r).
-  { rewrite Hl at 2. rewrite Hl at 1. rewrite zlen_cons, zlen_app.
-    replace (1 + (zlen (enc_len len) + zlen r) - zlen r + len) with (zlen (tag :: enc_len len) + len)
-      by (rewrite zlen_cons; lia).
-    change (tag :: enc_len len ++ r) with ((tag :: enc_len len) ++ r).
-    rewrite ztake_app_r by lia. replace (zlen (tag :: enc_len len) + len - zlen (tag :: enc_len len)) with len by lia.
-    reflexivity. }
-  split; [|split].
-  - rewrite Hfull. rewrite Hl at 1. cbn [app]. f_equal. rewrite <- app_assoc. f_equal. symmetry. apply ztake_zdrop.
-  - unfold valid. cbn [t_full t_body t_tag]. rewrite Hfull. unfold enc_tlv.
-    rewrite zlen_ztake by lia. repeat split; try apply Htag.
-    + unfold small. rewrite zlen_ztake by lia. lia.
-    + apply all_bytes_ztake. exact Hr.
-  - apply all_bytes_zdrop. exact Hr.
-Qed.
-
-Lemma read_tlv_enc tag body rest :
-  tag_ok tag -> small body -> read_tlv (enc_tlv tag body ++ rest) = Ok (mkTlv tag body (enc_tlv tag body), rest).
-Proof.
-  intros Ht Hs. unfold read_tlv.
-  assert (E : read_hdr (enc_tlv tag body ++ rest) = Ok (tag, zlen body, body ++ rest)).
-  { unfold enc_tlv. cbn [app]. rewrite <- app_assoc.
-    apply read_hdr_enc; [exact Ht|]. unfold small in Hs. pose proof (zlen_nonneg body). lia. }
-  rewrite E. cbn [bind]. pose proof (zlen_nonneg rest). pose proof (zlen_nonneg body).
-  rewrite !zlen_app.
-  replace (zlen body + zlen rest <? zlen body) with false by lia.
-  rewrite ztake_app_l by lia. rewrite (ztake_all (zlen body) body) by lia.
-  rewrite zdrop_app_r by lia. replace (zlen body - zlen body) with 0 by lia. rewrite zdrop_0.
-  replace (zlen (enc_tlv tag body) + zlen rest - (zlen body + zlen rest) + zlen body) with (zlen (enc_tlv tag body)) by lia.
-  rewrite ztake_app_l by lia. rewrite ztake_all by lia. reflexivity.
-Qed.
-
-Lemma tlv_eta t : t = mkTlv (t_tag t) (t_body t) (t_full t).
-Proof. destruct t; reflexivity. Qed.
-
-(* a valid element is read back, whatever follows it *)
-Lemma read_tlv_valid t rest : valid t -> read_tlv (t_full t ++ rest) = Ok (t, rest).
-Proof.
-  intros (Hf & Ht & Hs & Hb). rewrite Hf. rewrite read_tlv_enc by assumption. rewrite <- Hf. rewrite <- tlv_eta. reflexivity.
-Qed.
-Lemma read_hdr_valid t rest : valid t -> read_hdr (t_full t ++ rest) = Ok (t_tag t, zlen (t_body t), t_body t ++ rest).
-Proof.
-  intros (Hf & Ht & Hs & Hb). rewrite Hf. unfold enc_tlv. cbn [app]. rewrite <- app_assoc.
-  apply read_hdr_enc; [exact Ht|]. unfold small in Hs. pose proof (zlen_nonneg (t_body t)). lia.
-Qed.
-Lemma valid_enc tag body : tag_ok tag -> small body -> all_bytes body = true -> valid (mkTlv tag body (enc_tlv tag body)).
-Proof. intros. unfold valid. cbn. tauto. Qed.
-Lemma valid_nonempty t : valid t -> exists b r, t_full t = b :: r.
-Proof. intros (Hf & _). rewrite Hf. unfold enc_tlv. eauto. Qed.
-
-(* the header of a raw element is regenerated identically: RawContent structs come out byte for byte *)
-Lemma emit_raw_valid t : valid t -> emit_raw (t_tag t) (t_full t) = t_full t.
-Proof.
-  intros Hv. unfold emit_raw, strip_hdr.
-  pose proof (read_hdr_valid t [] Hv) as H. rewrite !app_nil_r in H. rewrite H.
-  destruct Hv as (Hf & _). symmetry. exact Hf.
-Qed.
-
-(* ------------------------------------------------------------------ sequences of elements *)
-Lemma read_all_f_ok fuel : forall l ts,
-  all_bytes l = true -> read_all_f fuel l = Ok ts -> l = concat (map t_full ts) /\ Forall valid ts.
-Proof.
-  induction fuel as [|f IH]; intros l ts Hb H.
-  - destruct l; cbn in H; [|discriminate]. inversion H; subst. cbn. auto.
-  - destruct l as [|b l']; cbn [read_all_f] in H.
-    + inversion H; subst. cbn. auto.
-    + destruct (read_tlv (b :: l')) as [[t rest]| |] eqn:Er; cbn [bind] in H; try discriminate.
-      apply read_tlv_ok in Er as (Hl & Hv & Hrest); [|exact Hb].
-      cbn [fst snd] in H.
-      destruct (read_all_f f rest) as [rs| |] eqn:Ea; cbn [bind] in H; try discriminate.
-      inversion H; subst ts; clear H.
-      apply IH in Ea as (Hr & Hvs); [|exact Hrest].
-      split; [|constructor; assumption]. cbn [map concat]. rewrite Hl at 1. f_equal. exact Hr.
-Qed.
-Lemma read_all_ok l ts :
-  all_bytes l = true -> read_all l = Ok ts -> l = concat (map t_full ts) /\ Forall valid ts.
-Proof. apply read_all_f_ok. Qed.
-
-Lemma read_all_f_concat ts : Forall valid ts -> forall fuel, (length ts <= fuel)%nat ->
-  read_all_f fuel (concat (map t_full ts)) = Ok ts.
-Proof.
-  induction 1 as [|t ts Hv Hvs IH]; intros fuel Hf.
-  - destruct fuel; reflexivity.
-  - destruct fuel as [|f]; [cbn in Hf; lia|].
-    cbn [map concat]. destruct (valid_nonempty t Hv) as (b & r & Hbr).
-    rewrite Hbr. cbn [app read_all_f].
-    change (b :: r ++ concat (map t_full ts)) with ((b :: r) ++ concat (map t_full ts)). rewrite <- Hbr.
-    rewrite read_tlv_valid by exact Hv. cbn [bind fst snd].
-    rewrite IH by (cbn in Hf; lia). reflexivity.
-Qed.
-Lemma length_concat_ge ts : Forall valid ts -> (length ts <= length (concat (map t_full ts)))%nat.
-Proof.
-  induction 1 as [|t ts Hv _ IH]; [cbn; lia|].
-  cbn [map concat length]. rewrite app_length. destruct (valid_nonempty t Hv) as (b & r & Hbr). rewrite Hbr. cbn [length]. lia.
-Qed.
-Lemma read_all_concat ts : Forall valid ts -> read_all (concat (map t_full ts)) = Ok ts.
-Proof. intros H. apply read_all_f_concat; [exact H|]. apply length_concat_ge. exact H. Qed.
-
-(* ------------------------------------------------------------------ SET OF sorting *)
-Lemma bytes_leb_total a : forall b, bytes_leb a b = false -> bytes_leb b a = true.
-Proof.
-  induction a as [|x a IH]; intros [|y b] H; cbn in *; try discriminate; try reflexivity.
-  destruct (x <? y) eqn:E1; [discriminate|]. destruct (y <? x) eqn:E2; [reflexivity|]. apply IH. exact H.
-Qed.
-
-Fixpoint sorted_b (l : list bytes) : Prop :=
-  match l with
-  | x :: ((y :: _) as r) => bytes_leb x y = true /\ sorted_b r
-  | _ => True
+(* what reading an optional field establishes *)
+Lemma read_optional_ok oct l o rest : all_bytes l = true -> read_optional true oct l = Ok (o, rest) ->
+  match o with
+  | Some t => l = t_full t ++ rest /\ valid t /\ t_tag t = oct /\ all_bytes rest = true
+  | None => rest = l
   end.
-Lemma insert_b_sorted x l : sorted_b l -> sorted_b (insert_b x l).
 Proof.
-  induction l as [|y r IH]; intros H; cbn [insert_b]; [exact I|].
-  destruct (bytes_leb x y) eqn:E.
-  - cbn [sorted_b]. split; [exact E|exact H].
-  - destruct r as [|z r'].
-    + cbn. split; [apply bytes_leb_total; exact E|exact I].
-    + cbn [sorted_b] in H. destruct H as [Hyz Hr]. specialize (IH Hr). cbn [insert_b] in *.
-      destruct (bytes_leb x z) eqn:E2.
-      * cbn [sorted_b]. split; [apply bytes_leb_total; exact E|]. exact IH.
-      * cbn [sorted_b]. split; [exact Hyz|]. exact IH.
-Qed.
-Lemma sort_b_sorted l : sorted_b (sort_b l).
-Proof. induction l as [|x l IH]; [exact I|]. cbn [sort_b fold_right]. apply insert_b_sorted. exact IH. Qed.
-Lemma sort_b_id l : sorted_b l -> sort_b l = l.
-Proof.
-  induction l as [|x l IH]; intros H; [reflexivity|].
-  cbn [sort_b fold_right]. change (fold_right insert_b [] l) with (sort_b l).
-  destruct l as [|y r]; [reflexivity|]. cbn [sorted_b] in H. destruct H as [Hxy Hr].
-  rewrite IH by exact Hr. cbn [insert_b]. rewrite Hxy. reflexivity.
-Qed.
-Lemma sort_b_idem l : sort_b (sort_b l) = sort_b l.
-Proof. apply sort_b_id. apply sort_b_sorted. Qed.
-
-Lemma map_insert_on {A} (key : A -> bytes) x l : map key (insert_on key x l) = insert_b (key x) (map key l).
-Proof.
-  induction l as [|y r IH]; [reflexivity|]. cbn [insert_on insert_b map].
-  destruct (bytes_leb (key x) (key y)); cbn [map]; [reflexivity|]. rewrite IH. reflexivity.
-Qed.
-Lemma map_sort_on {A} (key : A -> bytes) l : map key (sort_on key l) = sort_b (map key l).
-Proof.
-  induction l as [|x l IH]; [reflexivity|]. cbn [sort_on sort_b fold_right map].
-  change (fold_right (insert_on key) [] l) with (sort_on key l). rewrite map_insert_on, IH. reflexivity.
-Qed.
-Lemma Forall_insert_on {A} (P : A -> Prop) (key : A -> bytes) x l : P x -> Forall P l -> Forall P (insert_on key x l).
-Proof.
-  intros Hx. induction 1 as [|y r Hy Hr IH]; cbn [insert_on]; [auto|].
-  destruct (bytes_leb (key x) (key y)); auto.
-Qed.
-Lemma Forall_sort_on {A} (P : A -> Prop) (key : A -> bytes) l : Forall P l -> Forall P (sort_on key l).
-Proof.
-  induction 1 as [|x l Hx Hl IH]; [constructor|]. cbn [sort_on fold_right]. apply Forall_insert_on; assumption.
-Qed.
-Lemma In_insert_on {A} (key : A -> bytes) x y l : In y (insert_on key x l) <-> y = x \/ In y l.
-Proof.
-  induction l as [|z r IH]; cbn [insert_on In]; [intuition|].
-  destruct (bytes_leb (key x) (key z)); cbn [In]; [intuition|]. rewrite IH. intuition.
-Qed.
-Lemma In_sort_on {A} (key : A -> bytes) y l : In y (sort_on key l) <-> In y l.
-Proof.
-  induction l as [|x l IH]; [reflexivity|]. cbn [sort_on fold_right]. change (fold_right (insert_on key) [] l) with (sort_on key l).
-  rewrite In_insert_on, IH. cbn [In]. intuition.
-Qed.
-Lemma sort_on_id_key l : sort_on (fun x : bytes => x) l = sort_b l.
-Proof. rewrite <- (map_id (sort_on _ l)). rewrite map_sort_on, map_id. reflexivity. Qed.
-Lemma In_sort_b y l : In y (sort_b l) <-> In y l.
-Proof. rewrite <- sort_on_id_key. apply In_sort_on. Qed.
-
-(* ------------------------------------------------------------------ INTEGER: decode then encode is the identity on what checkInteger accepts *)
-Lemma be_dec_snoc l b : be_dec (l ++ [b]) = be_dec l * 256 + b.
-Proof. unfold be_dec. rewrite rev_app_distr. cbn [rev app le_dec]. lia. Qed.
-Lemma be_dec_range l : all_bytes l = true -> 0 <= be_dec l < 256 ^ zlen l.
-Proof.
-  intros H. unfold be_dec. pose proof (le_dec_range (rev l)) as R. rewrite all_bytes_rev in R. specialize (R H).
-  unfold zlen in *. rewrite rev_length in R. exact R.
-Qed.
-Lemma dec_int_snoc c b : c <> [] -> dec_int (c ++ [b]) = dec_int c * 256 + b.
-Proof.
-  destruct c as [|x r]; [congruence|]. intros _. cbn [app dec_int].
-  rewrite be_dec_snoc, zlen_app. change (zlen [b]) with 1.
-  rewrite Z.pow_add_r by (pose proof (zlen_nonneg r); lia). lia.
-Qed.
-Lemma sbyte_mod b : 0 <= b < 256 -> sbyte b mod 256 = b.
-Proof. intros H. unfold sbyte. destruct (b >=? 128) eqn:E; lia. Qed.
-Lemma sbyte_range b : 0 <= b < 256 -> -128 <= sbyte b <= 127.
-Proof. intros H. unfold sbyte. destruct (b >=? 128) eqn:E; lia. Qed.
-
-Lemma int_ok_snoc c b : (2 <= length c)%nat -> int_ok (c ++ [b]) = int_ok c.
-Proof. destruct c as [|x [|y r]]; cbn [length]; try lia. intros _. reflexivity. Qed.
-
-Lemma enc_dec_int_aux : forall c,
-  c <> [] -> all_bytes c = true -> int_ok c = true ->
-  ((2 <= length c)%nat -> dec_int c > 127 \/ dec_int c < -128) /\
-  (forall fuel, (length c <= S fuel)%nat -> enc_int_f fuel (dec_int c) = c).
-Proof.
-  intros c. induction c as [|b c' IH] using rev_ind; [congruence|]. intros _ Hb Hok.
-  apply all_bytes_app_iff in Hb as [Hc' Hb]. apply all_bytes_cons in Hb as [Hb _].
-  destruct c' as [|x r].
-  - (* single octet *)
-    cbn [app dec_int]. change (zlen (@nil Z)) with 0. change (be_dec []) with 0.
-    pose proof (sbyte_range b Hb). pose proof (sbyte_mod b Hb).
-    split; [cbn; lia|]. intros fuel _. replace (sbyte b * 256 ^ 0 + 0) with (sbyte b) by lia.
-    destruct fuel; cbn [enc_int_f].
-    + congruence.
-    + replace ((sbyte b >? 127) || (sbyte b <? -128)) with false by lia. congruence.
-  - assert (Hne : x :: r <> []) by congruence.
-    rewrite dec_int_snoc by exact Hne.
-    assert (Hbig : dec_int (x :: r) * 256 + b > 127 \/ dec_int (x :: r) * 256 + b < -128).
-    { destruct r as [|y r'].
-      - (* two octets: x b *)
-        cbn [dec_int]. change (zlen (@nil Z)) with 0. change (be_dec []) with 0.
-        apply all_bytes_cons in Hc' as [Hx _]. cbn [app int_ok] in Hok. unfold sbyte.
-        destruct (x >=? 128) eqn:Ex; lia.
-      - assert (Hok' : int_ok (x :: y :: r') = true) by (rewrite <- Hok; symmetry; apply int_ok_snoc; cbn; lia).
-        destruct (IH Hne Hc' Hok') as [Hbig _]. specialize (Hbig ltac:(cbn; lia)). lia. }
-    split; [intros _; exact Hbig|].
-    intros fuel Hlen. rewrite app_length in Hlen. cbn [length] in Hlen.
-    destruct fuel as [|f]; [lia|]. cbn [enc_int_f].
-    replace ((dec_int (x :: r) * 256 + b >? 127) || (dec_int (x :: r) * 256 + b <? -128)) with true by lia.
-    replace ((dec_int (x :: r) * 256 + b) / 256) with (dec_int (x :: r)) by lia.
-    replace ((dec_int (x :: r) * 256 + b) mod 256) with b by lia.
-    f_equal.
-    assert (Hok' : int_ok (x :: r) = true).
-    { destruct r as [|y r']; [reflexivity|]. rewrite <- Hok. symmetry. apply int_ok_snoc. cbn; lia. }
-    destruct (IH Hne Hc' Hok') as [_ Henc]. apply Henc. cbn [length] in *. lia.
-Qed.
-Lemma enc_dec_int c : all_bytes c = true -> int64_ok c = true -> enc_int (dec_int c) = c.
-Proof.
-  intros Hb H. unfold int64_ok in H. apply andb_true_iff in H as [Hok Hlen].
-  assert (c <> []) by (destruct c; [discriminate|congruence]).
-  destruct (enc_dec_int_aux c H Hb Hok) as [_ Henc]. apply Henc. unfold zlen in Hlen. lia.
+  intros Hb H. unfold read_optional in H. destruct l as [|b l'].
+  - inversion H; subst. reflexivity.
+  - inv_bind H. destruct x as [[tag len] r]. destruct (tag =? oct) eqn:Et.
+    + inv_bind H. inversion H; subst. destruct x as [t rest']. cbn [fst snd].
+      apply read_tlv_ok in E0 as (Hl & Hv & Hr); [|exact Hb].
+      split; [exact Hl|]. split; [exact Hv|]. split; [|exact Hr].
+      (* the tag read by read_hdr is the tag of the element *)
+      rewrite Hl in E. rewrite read_hdr_valid in E by exact Hv. inversion E; subst. lia.
+    + inversion H; subst. reflexivity.
 Qed.
 
-(* ------------------------------------------------------------------ BIT STRING *)
-Lemma enc_bits_id c : all_bytes c = true -> bits_ok c = true -> enc_bits c = c.
+Lemma map_res_inv {A B} (f : A -> result B) l : forall vs, map_res f l = Ok vs -> Forall2 (fun a v => f a = Ok v) l vs.
 Proof.
-  intros Hb H. destruct c as [|p d]; [discriminate|]. apply all_bytes_cons in Hb as [Hp _].
-  unfold bits_ok in H. apply andb_true_iff in H as [H H3]. apply andb_true_iff in H as [H1 H2].
-  unfold enc_bits. f_equal. pose proof (zlen_nonneg d).
-  destruct (zlen d =? 0) eqn:E; cbn [andb negb] in H2; lia.
+  induction l as [|a l IH]; intros vs H; cbn [map_res] in H.
+  - inversion H; subst. constructor.
+  - inv_bind H. inv_bind H. inversion H; subst. constructor; [exact E|]. apply IH. exact E0.
+Qed.
+Lemma map_res_ok {A B} (f : A -> result B) l vs : Forall2 (fun a v => f a = Ok v) l vs -> map_res f l = Ok vs.
+Proof. induction 1; cbn [map_res]; [reflexivity|]. rewrite H, IHForall2. reflexivity. Qed.
+
+Lemma parse_list_inv {A} oct (f : tlv -> result A) body vs : all_bytes body = true -> parse_list oct f body = Ok vs ->
+  exists ts, body = concat (map t_full ts) /\ Forall valid ts /\ Forall2 (fun t v => t_tag t = oct /\ f t = Ok v) ts vs.
+Proof.
+  intros Hb H. unfold parse_list in H. inv_bind H. apply read_all_ok in E as (Hl & Hv); [|exact Hb].
+  exists x. split; [exact Hl|]. split; [exact Hv|].
+  apply map_res_inv in H. clear - H. induction H as [|t v ts vs Hf _ IH]; constructor; auto.
+  destruct (t_tag t =? oct) eqn:Et; [|discriminate]. split; [lia|exact Hf].
+Qed.
+Lemma parse_list_emit {A} oct (f : tlv -> result A) (mk : A -> tlv) vs :
+  Forall (fun v => valid (mk v) /\ t_tag (mk v) = oct /\ f (mk v) = Ok v) vs ->
+  parse_list oct f (concat (map (fun v => t_full (mk v)) vs)) = Ok vs.
+Proof.
+  intros H. unfold parse_list.
+  replace (map (fun v => t_full (mk v)) vs) with (map t_full (map mk vs)) by (rewrite map_map; reflexivity).
+  rewrite read_all_concat.
+  - cbn [bind]. apply map_res_ok. clear - H. induction H as [|v vs (Hv & Ht & Hf) _ IH]; cbn [map]; constructor; [|exact IH].
+    rewrite Ht, Z.eqb_refl. exact Hf.
+  - clear - H. induction H as [|v vs (Hv & _) _ IH]; cbn [map]; constructor; assumption.
+Qed.
+
+Lemma small_concat ls : small (concat ls) -> Forall small ls.
+Proof.
+  induction ls as [|l ls IH]; intros H; [constructor|]. cbn [concat] in H. apply small_app in H as [H1 H2]. constructor; auto.
+Qed.
+Lemma concat_map_sort_on {A} (key : A -> bytes) l : concat (sort_b (map key l)) = concat (map key (sort_on key l)).
+Proof. rewrite map_sort_on. reflexivity. Qed.
+Lemma Forall_small_perm_sort ls : Forall small ls -> Forall small (sort_b ls).
+Proof. intros H. rewrite <- sort_on_id_key. apply Forall_sort_on. exact H. Qed.
+Lemma small_concat_sort ls : small (concat (sort_b ls)) -> Forall small ls.
+Proof.
+  intros H. apply small_concat in H. rewrite Forall_forall in *. intros x Hx. apply H. apply In_sort_b. exact Hx.
+Qed.
+
+(* ------------------------------------------------------------------ AlgorithmIdentifier *)
+Definition alg_body (a : algid) : bytes := enc_tlv T_OID (a_oid a) ++ a_params a.
+Definition mk_alg (a : algid) : tlv := mkTlv T_SEQ (alg_body a) (emit_algid a).
+Definition wf_alg (a : algid) : Prop :=
+  oid_ok (a_oid a) = true /\ all_bytes (a_oid a) = true /\ small (a_oid a) /\
+  (a_params a = [] \/ exists p, valid p /\ a_params a = t_full p).
+
+Lemma parse_algid_wf body a : all_bytes body = true -> parse_algid body = Ok a -> wf_alg a.
+Proof.
+  intros Hb H. unfold parse_algid in H. inv_bind H. destruct x as [t rest].
+  apply read_expect_ok in E as (Hl & Hv & Ht & Hr); [|exact Hb]. cbn [fst snd] in H.
+  destruct (oid_ok (t_body t)) eqn:Eo; cbn [negb] in H; [|discriminate].
+  destruct rest as [|b r].
+  - inversion H; subst. unfold wf_alg. cbn. repeat split; auto using valid_body_bytes, valid_small.
+  - inv_bind H. destruct x as [p rest2]. inversion H; subst. cbn [fst].
+    apply read_tlv_ok in E as (Hl2 & Hv2 & _); [|exact Hr].
+    unfold wf_alg. cbn. repeat split; auto using valid_body_bytes, valid_small. right. eauto.
+Qed.
+Lemma alg_body_bytes a : wf_alg a -> all_bytes (alg_body a) = true.
+Proof.
+  intros (Ho & Hb & Hs & Hp). unfold alg_body. apply all_bytes_app_iff. split.
+  - apply (valid_full_bytes (mkTlv T_OID (a_oid a) (enc_tlv T_OID (a_oid a)))). apply valid_enc; [tagok|assumption|assumption].
+  - destruct Hp as [->|(p & Hv & ->)]; [reflexivity|]. apply valid_full_bytes. exact Hv.
+Qed.
+Lemma algid_reparse a : wf_alg a -> small (emit_algid a) ->
+  valid (mk_alg a) /\ t_tag (mk_alg a) = T_SEQ /\ parse_algid (t_body (mk_alg a)) = Ok a.
+Proof.
+  intros Hw Hs. pose proof (alg_body_bytes a Hw) as Hbb. destruct Hw as (Ho & Hb & Hso & Hp).
+  unfold emit_algid in Hs. apply small_enc_tlv in Hs. fold (alg_body a) in Hs.
+  split; [|split; [reflexivity|]].
+  - unfold mk_alg, emit_algid. fold (alg_body a). apply valid_enc; [tagok|assumption|assumption].
+  - cbn [mk_alg t_body]. unfold parse_algid, alg_body.
+    rewrite read_expect_enc by (try tagok; assumption). cbn [bind fst snd t_body]. rewrite Ho. cbn [negb].
+    destruct Hp as [Hp|(p & Hv & Hp)]; rewrite Hp.
+    + destruct a; cbn in *; subst; reflexivity.
+    + destruct (valid_nonempty p Hv) as (b & r & Hbr). rewrite Hbr. rewrite <- Hbr.
+      rewrite <- (app_nil_r (t_full p)) at 1. rewrite read_tlv_valid by exact Hv. cbn [bind fst].
+      destruct a; cbn in *; subst; reflexivity.
+Qed.
+
+(* ------------------------------------------------------------------ structs that keep their raw encoding: SignerInfo, ContentInfo *)
+Definition mk_raw (raw : bytes) : tlv := mkTlv T_SEQ (strip_hdr raw) raw.
+Lemma mk_raw_valid t : valid t -> t_tag t = T_SEQ -> mk_raw (t_full t) = t.
+Proof.
+  intros Hv Ht. unfold mk_raw, strip_hdr.
+  pose proof (read_hdr_valid t [] Hv) as H. rewrite !app_nil_r in H. rewrite H. rewrite <- Ht. symmetry. apply tlv_eta.
+Qed.
+
+Lemma parse_si_raw t s : parse_si t = Ok s -> si_raw s = t_full t.
+Proof.
+  unfold parse_si. intros H.
+  repeat (let x := fresh "x" in let E := fresh "E" in apply bind_ok in H; destruct H as (x & E & H);
+          try match type of H with (if ?c then _ else _) = _ => destruct c; [discriminate|] end).
+  inversion H; subst. reflexivity.
+Qed.
+(* a SignerInfo that came out of the parser *)
+Definition wf_si (s : sinfo) : Prop := exists t, valid t /\ t_tag t = T_SEQ /\ parse_si t = Ok s.
+Lemma wf_si_mk s : wf_si s -> valid (mk_raw (si_raw s)) /\ t_tag (mk_raw (si_raw s)) = T_SEQ /\ parse_si (mk_raw (si_raw s)) = Ok s.
+Proof.
+  intros (t & Hv & Ht & Hp). rewrite (parse_si_raw t s Hp). rewrite mk_raw_valid by assumption. tauto.
+Qed.
+Lemma emit_si_wf s : wf_si s -> emit_si s = si_raw s.
+Proof.
+  intros (t & Hv & Ht & Hp). unfold emit_si. rewrite (parse_si_raw t s Hp).
+  destruct (valid_nonempty t Hv) as (b & r & Hbr). rewrite Hbr. rewrite <- Hbr. rewrite si_keeps_raw_v.
+  rewrite <- Ht. apply emit_raw_valid. exact Hv.
+Qed.
+
+Definition wf_ci (c : cinfo) : Prop := exists t, valid t /\ t_tag t = T_SEQ /\ parse_ci t = Ok c.
+Lemma parse_ci_raw t c : parse_ci t = Ok c -> ci_raw c = t_full t.
+Proof.
+  unfold parse_ci. intros H. inv_bind H. destruct (oid_ok (t_body (fst x))); [|discriminate]. inversion H; subst. reflexivity.
+Qed.
+Lemma emit_ci_wf c : wf_ci c -> emit_ci c = ci_raw c.
+Proof.
+  intros (t & Hv & Ht & Hp). unfold emit_ci. rewrite (parse_ci_raw t c Hp).
+  destruct (valid_nonempty t Hv) as (b & r & Hbr). rewrite Hbr. rewrite <- Hbr. rewrite ci_keeps_raw_v.
+  rewrite <- Ht. apply emit_raw_valid. exact Hv.
+Qed.
+Lemma wf_ci_mk c : wf_ci c -> valid (mk_raw (ci_raw c)) /\ t_tag (mk_raw (ci_raw c)) = T_SEQ /\ parse_ci (mk_raw (ci_raw c)) = Ok c.
+Proof.
+  intros (t & Hv & Ht & Hp). rewrite (parse_ci_raw t c Hp). rewrite mk_raw_valid by assumption. tauto.
+Qed.
+
+(* ------------------------------------------------------------------ CertificateList (region level) *)
+Definition crl_body (c : crl) : bytes :=
+  emit_raw T_SEQ (c_tbs c) ++ emit_algid (c_alg c) ++ enc_tlv T_BITS (enc_bits (c_sig c)).
+Definition mk_crl (c : crl) : tlv := mkTlv T_SEQ (crl_body c) (emit_crl c).
+Definition wf_crl (c : crl) : Prop :=
+  (exists t, valid t /\ t_tag t = T_SEQ /\ c_tbs c = t_full t) /\ wf_alg (c_alg c) /\
+  bits_ok (c_sig c) = true /\ all_bytes (c_sig c) = true /\ small (c_sig c).
+
+Lemma parse_crl_wf t c : valid t -> parse_crl t = Ok c -> wf_crl c.
+Proof.
+  intros Hv H. unfold parse_crl in H.
+  inv_bind H. destruct x as [t1 rest1]. apply read_expect_ok in E as (Hl1 & Hv1 & Ht1 & Hr1); [|apply valid_body_bytes; exact Hv].
+  inv_bind H. destruct x as [t2 rest2]. cbn [snd] in E. apply read_expect_ok in E as (Hl2 & Hv2 & Ht2 & Hr2); [|exact Hr1].
+  inv_bind H. cbn [fst] in E. apply parse_algid_wf in E; [|apply valid_body_bytes; exact Hv2].
+  inv_bind H. destruct x0 as [t3 rest3]. cbn [snd] in E0. apply read_expect_ok in E0 as (Hl3 & Hv3 & Ht3 & Hr3); [|exact Hr2].
+  cbn [fst] in H. destruct (bits_ok (t_body t3)) eqn:Eb; cbn [negb] in H; [|discriminate].
+  inversion H; subst. unfold wf_crl. cbn [c_tbs c_alg c_sig]. split; [eauto|]. split; [exact E|].
+  repeat split; auto using valid_body_bytes, valid_small.
+Qed.
+Lemma crl_reparse c : wf_crl c -> small (emit_crl c) ->
+  valid (mk_crl c) /\ t_tag (mk_crl c) = T_SEQ /\ parse_crl (mk_crl c) = Ok c.
+Proof.
+  intros ((t & Hv & Ht & Htbs) & Ha & Hb & Hbb & Hbs) Hs.
+  unfold emit_crl in Hs. apply small_enc_tlv in Hs. fold (crl_body c) in Hs.
+  pose proof Hs as Hs'. unfold crl_body in Hs'. apply small_app in Hs' as [_ Hs']. apply small_app in Hs' as [Hsa _].
+  destruct (algid_reparse _ Ha Hsa) as (Hva & _ & Hpa).
+  assert (Eraw : emit_raw T_SEQ (c_tbs c) = t_full t) by (rewrite Htbs, <- Ht; apply emit_raw_valid; exact Hv).
+  assert (Hvb : valid (mkTlv T_BITS (c_sig c) (enc_tlv T_BITS (c_sig c)))) by (apply valid_enc; [tagok|assumption|assumption]).
+  assert (Hbytes : all_bytes (crl_body c) = true).
+  { unfold crl_body. rewrite Eraw, (enc_bits_id _ Hbb Hb). apply all_bytes_app_iff. split; [apply valid_full_bytes; exact Hv|].
+    apply all_bytes_app_iff. split; [apply (valid_full_bytes _ Hva)|apply (valid_full_bytes _ Hvb)]. }
+  split; [|split; [reflexivity|]].
+  - unfold mk_crl, emit_crl. fold (crl_body c). apply valid_enc; [tagok|assumption|assumption].
+  - unfold parse_crl. cbn [mk_crl t_body]. unfold crl_body. rewrite Eraw.
+    rewrite read_expect_valid by assumption. cbn [bind fst snd].
+    change (emit_algid (c_alg c)) with (t_full (mk_alg (c_alg c))).
+    rewrite read_expect_valid by (try exact Hva; reflexivity). cbn [bind fst snd]. rewrite Hpa. cbn [bind].
+    rewrite (enc_bits_id _ Hbb Hb).
+    rewrite <- (app_nil_r (enc_tlv T_BITS (c_sig c))). rewrite read_expect_enc by (try tagok; assumption).
+    cbn [bind fst snd t_body t_full]. rewrite Hb. cbn [negb]. rewrite <- Htbs. destruct c; reflexivity.
+Qed.
+
+(* ------------------------------------------------------------------ certificates: raw values kept whole *)
+Definition wf_raws (l : list bytes) : Prop := Forall (fun b => exists t, valid t /\ b = t_full t) l.
+Lemma wf_raws_map ts : Forall valid ts -> wf_raws (map t_full ts).
+Proof. induction 1; cbn; constructor; eauto. Qed.
+Lemma wf_raws_read l : wf_raws l -> exists ts, Forall valid ts /\ l = map t_full ts.
+Proof.
+  induction 1 as [|b l (t & Hv & ->) _ (ts & Hvs & ->)]; [exists []; split; [constructor|reflexivity]|].
+  exists (t :: ts). split; [constructor; assumption|reflexivity].
 Qed.
